@@ -36,7 +36,9 @@ def q_grid(n, rng, extra=2):
     return [q for q in qs if 0.0 <= q <= 1.0]
 
 
-def mk_q_case(routine, et, strat, shape, axis, vals, qs, lay, mode, profile="debug", **kw):
+def mk_q_case(routine, et, strat, shape, axis, vals, qs, lay, mode, profile="debug", il=0, **kw):
+    """il: presentation of the q array for the bulk routines (harness common::present): 0 owned contiguous,
+    1 reversed view of reversed storage, 2 every second element of padded storage, 3 reversed stepped"""
     cd = Codec(et)
     toks = [cd.tok(v) for v in vals]
     guard_v = {"n64": 12345.5}.get(et, 77 if et in ("i8", "u8") else 7777)
@@ -45,6 +47,9 @@ def mk_q_case(routine, et, strat, shape, axis, vals, qs, lay, mode, profile="deb
     qbits = [f64_bits(q) for q in qs]
     line = "%s %d | %s | %d %s | %d | %d %s | %s" % (et, strat, lay.tokens(), len(buf_t), " ".join(buf_t), axis, len(qs),
                                                     " ".join(map(str, qbits)), pivot_tokens(mode))
+    if il and routine in ("quantiles", "quantiles1"):
+        line += " %d" % il
+        kw["q_layout"] = il
     return Case(routine, " ".join(line.split()), profile, et=et, strat=strat, shape=list(shape), axis=axis,
                 vals=list(vals), qs=list(qs), qbits=qbits, buf_m=[int(t) for t in buf_t], cells=lay.cells(),
                 layout=lay.describe(), mode=mode, **kw)
@@ -207,7 +212,7 @@ class C01(Prop):
                     lay = lay1(n, *rng.choice([(1, 0, 0), (2, 1, 1), (-1, 0, 1), (3, 2, 0), (-2, 1, 0)]))
                     mode = rng.choice([("R",), ("P", 0), ("P", 1), ("P", 2), ("P", 7), ("S", [rng.below(n) for _ in range(6)])])
                     routine = "quantiles1" if k % 2 else "quantiles"
-                    yield mk_q_case(routine, et, strat, [n], 0, vals, qs, lay, mode)
+                    yield mk_q_case(routine, et, strat, [n], 0, vals, qs, lay, mode, il=k % 4)
                     # the same requests one at a time
                     for q in qs[:3]:
                         yield mk_q_case("quantile1" if k % 2 else "quantile", et, strat, [n], 0, vals, [q], lay, mode)
@@ -230,7 +235,7 @@ class C01(Prop):
                 if rng.chance(1, 3) and qs:
                     yield mk_q_case("quantile", et, strat, shape, axis, vals, qs[:1], lay, mode)
                 else:
-                    yield mk_q_case("quantiles", et, strat, shape, axis, vals, qs, lay, mode)
+                    yield mk_q_case("quantiles", et, strat, shape, axis, vals, qs, lay, mode, il=rng.below(4))
         # longer lanes
         for _ in range(60 if tier == "quick" else 2400):
             n = rng.range(13, 120)
@@ -243,6 +248,9 @@ class C01(Prop):
         for et in ("i32", "n64"):
             for qs in ([-0.1], [1.5], [0.5, 2.0, -1.0], [float("inf")], [0.2, -0.0]):
                 yield mk_q_case("quantiles", et, 1, [3], 0, self._lane(et, 3, rng, 1), qs, lay1(3), ("R",))
+            # two different offenders: the first one in LOGICAL order is reported, however the q array is laid out
+            for il in range(4):
+                yield mk_q_case("quantiles", et, 1, [3], 0, self._lane(et, 3, rng, 1), [0.5, 2.0, 0.25, -1.0, 3.5], lay1(3), ("R",), il=il)
                 yield mk_q_case("quantiles", et, 1, [0], 0, [], qs, lay1(0), ("R",))
             yield mk_q_case("quantiles", et, 1, [0], 0, [], [0.5], lay1(0), ("R",))
             yield mk_q_case("quantiles", et, 1, [3], 0, self._lane(et, 3, rng, 1), [], lay1(3), ("R",))
